@@ -252,6 +252,13 @@ int main(int argc, char** argv) {
         t_bssf_enc(carquet_dispatch_byte_split_encode_float, "bss_encode_float"); t_bssf_dec(carquet_dispatch_byte_split_decode_float, "bss_decode_float"); t_bssd_enc(carquet_dispatch_byte_split_encode_double, "bss_encode_double"); t_bssd_dec(carquet_dispatch_byte_split_decode_double, "bss_decode_double");
         t_unpack_bools(carquet_dispatch_unpack_bools); t_pack_bools(carquet_dispatch_pack_bools); t_find_run(carquet_dispatch_find_run_length_i32); t_crc32c(carquet_dispatch_crc32c); t_match_copy(carquet_dispatch_match_copy); t_match_length(carquet_dispatch_match_length);
         t_count_non_nulls(carquet_dispatch_count_non_nulls); t_build_null_bitmap(carquet_dispatch_build_null_bitmap); t_fill(carquet_dispatch_fill_def_levels); v_count_n("kernels_exercised", 19);
+    } else if (!strncmp(mode, "dispatch-first", 14)) { /* a fresh process whose very first dispatched call is kernel number k (after carquet_init only): the lazily built table must be there for every entry point */
+        int k = argc > 4 ? atoi(argv[4]) : 0; static char isa[64]; snprintf(isa, sizeof isa, "dispatch-first-call"); ISA = isa; MAXC = 24; NBIG = 0;
+        switch (k) { case 0: t_psum32(carquet_dispatch_prefix_sum_i32); break; case 1: t_psum64(carquet_dispatch_prefix_sum_i64); break; case 2: t_gather32(carquet_dispatch_gather_i32, "gather_i32"); break; case 3: t_gather64(carquet_dispatch_gather_i64, "gather_i64"); break; case 4: t_gatherf(carquet_dispatch_gather_float, "gather_float"); break; case 5: t_gatherd(carquet_dispatch_gather_double, "gather_double"); break;
+            case 6: t_bssf_enc(carquet_dispatch_byte_split_encode_float, "bss_encode_float"); break; case 7: t_bssf_dec(carquet_dispatch_byte_split_decode_float, "bss_decode_float"); break; case 8: t_bssd_enc(carquet_dispatch_byte_split_encode_double, "bss_encode_double"); break; case 9: t_bssd_dec(carquet_dispatch_byte_split_decode_double, "bss_decode_double"); break;
+            case 10: t_unpack_bools(carquet_dispatch_unpack_bools); break; case 11: t_pack_bools(carquet_dispatch_pack_bools); break; case 12: t_find_run(carquet_dispatch_find_run_length_i32); break; case 13: t_crc32c(carquet_dispatch_crc32c); break; case 14: t_match_copy(carquet_dispatch_match_copy); break; case 15: t_match_length(carquet_dispatch_match_length); break;
+            case 16: t_count_non_nulls(carquet_dispatch_count_non_nulls); break; case 17: t_build_null_bitmap(carquet_dispatch_build_null_bitmap); break; default: t_fill(carquet_dispatch_fill_def_levels); break; }
+        v_count("dispatch_entry_points_called_first_in_a_process"); v_count_n("kernels_exercised", 1);
     } else return 2;
     v_sample("c15 %s: counts 0..%d x placements {end-flush, start-flush, mid+misalign %s} x value laws; guard pages (PROT_NONE) on both sides, canary windows of %d bytes", ISA, MAXC, MIS_ALL ? "1..63" : "{1,3,15,16,31,63}", WIN);
     v_finish(); return 0;
